@@ -90,7 +90,7 @@ bool MultiTag::removeReference(const DataArray &reference) {
     if (!util::checkEntityInput(reference)) {
         return false;
     }
-    return backend()->removeReference(reference.name());
+    return backend()->removeReference(reference.id());
 }
 
 
